@@ -173,9 +173,16 @@ func OpenBucket(urlStr string, bucketName string, mode OpenMode) (b *Bucket, err
 		serial:          serial,
 	}
 	bucket.expManager = newExpirationManager(bucket.doExpiration)
+	createdNew := false // only a bucket this call created is deleted again if the call fails
 	defer func() {
 		if err != nil {
-			_ = bucket.CloseAndDelete(ctx)
+			if createdNew {
+				_ = bucket.CloseAndDelete(ctx)
+			} else {
+				bucket.mutex.Lock()
+				bucket._closeSqliteDB()
+				bucket.mutex.Unlock()
+			}
 		}
 	}()
 
@@ -186,6 +193,7 @@ func OpenBucket(urlStr string, bucketName string, mode OpenMode) (b *Bucket, err
 		return nil, err
 	}
 	if vers == 0 {
+		createdNew = true
 		if err = bucket.initializeSchema(bucketName); err != nil {
 			return nil, err
 		}
